@@ -8,8 +8,12 @@ Shift(P, 0), a closure with a running sum or a multiset with Insert(c); Remove(b
 (a) and (b) over every sequence over {-1, 0, 1, 2} up to the length bound and P in 1..4 and emits every
 sequence with the documented result; the harness replays them on the real trend.MovingSum / MovingMax /
 MovingMin / Sma (periods 1, 2, 4) and volume.Obv and compares exactly.
-NOT covered (numeric accuracy of one pure float function each is outside explicit-state model checking): the
-arithmetic of the other ~55 indicator types - see MANIFEST level_note and DESIGN.md 6."""
+Second part (check_c01_formulas.py): spec/Formulas.tla transcribes the documented formula of 55 indicator types over exact
+rational arithmetic on position-indexed series; TLC evaluates them on every input word over small alphabets (ties, zeros,
+flat bars, zero volume, negative numbers for numeric inputs) and prints the exact values; the harness runs the real
+indicators on the same words and every defined position is compared (tolerance 1e-9; squares where the formula takes a
+root).  Positions with a zero denominator are exempt.
+"""
 import json
 import os
 import shutil
@@ -68,19 +72,27 @@ def main():
                          "indicators agree with the documented function" % (GUARDED_REMOVE_AS_CODED, model_bad))
     if model_bad:
         print("MODEL: Window.tla construction as coded differs from the documented window function for %s" % model_bad)
+    # ---- second part: the documented formulas of spec/Formulas.tla on every word over small alphabets
+    import check_c01_formulas
+    fcov = check_c01_formulas.run(tier, V)
+    if fcov["formula_outputs_never_compared"]:
+        machinery.append("documented outputs never compared (vacuous): %s" % fcov["formula_outputs_never_compared"])
     rc = V.finish()
     for m in machinery:
         print("MACHINERY: " + m)
     vlib.write_evidence(PID, "model_checking", {
-        "states": 1, "transitions": len(cases), "traces_validated_against_impl": len(cases),
+        "states": 1, "transitions": len(cases) + fcov["formula_cases"], "traces_validated_against_impl": len(cases) + fcov["formula_cases"],
         "samples": [c for c in cases if c["kind"] == "win" and len(c["s"]) == 4 and c["p"] == 2][:2] + [c for c in cases if c["kind"] == "obv"][-1:],
         "evaluations": rep["checks"], "distinct_nontrivial": len([c for c in cases if c.get("s") or c.get("c")]),
         "rule": "every sequence over {-1,0,1,2} of length 0..%d x P in 1..%d (window cores), every close/volume word over {10,11,12} x {1,2} "
                 "up to length %d (OBV); non-trivial = non-empty" % (maxlen, maxp, 4 if tier == "quick" else 5),
-        "construction_equals_documented": pr, "exhaustive": True, "known_findings_hit": V.hit,
-        "scope": "MovingSum, MovingMax, MovingMin, Sma (P in {1,2,4}), Obv only; the arithmetic of the other indicator types is not covered"},
+        "construction_equals_documented": pr, "exhaustive": True, "known_findings_hit": V.hit, **fcov,
+        "scope": "window cores and OBV compared bit for bit (Window.tla); %d indicator types compared with the exact rational value of their "
+                 "documented formula (Formulas.tla) at every position of every word; not covered: Envelope, Hma, Po, SuperTrend, PercentB, "
+                 "BollingerBandWidth, the Atr/SuperTrend variants with another moving average, Ichimoku's lagging span" % fcov["formula_indicators"]},
         time.time() - t0, len(V.new),
-        assumptions=["integer lattice: IEEE arithmetic exact", "C01 is claimed for this slice only"])
+        assumptions=["window cores: integer lattice, IEEE arithmetic exact", "formulas: small-integer words, tolerance 1e-9 relative; positions whose "
+                     "documented formula has a zero denominator are exempt", "configurations: periods 1..5 (the table in tools/formulas.py)"])
     if rc == 0 and machinery:
         return 2
     return rc
